@@ -762,6 +762,55 @@ theorem spec_shift_inRange (op : ShiftOp) (k : Kind) (x n z : Int) (hx : InRange
             omega
   · unfold shift at h; rw [if_pos (by omega)] at h; cases h
 
+/-! ## integer → string conversion -/
+
+theorem goStringOfRune_small (x : BitVec 64) (h0 : 0 ≤ x.toInt) (h1 : x.toInt ≤ 0x10FFFF) :
+    goStringOfRune (x.setWidth 32) = Utf8.encodeRune x.toInt.toNat := by
+  have hn : x.toInt = (x.toNat : Int) := by
+    rw [BitVec.toInt_eq_toNat_cond] at h0 ⊢
+    split
+    · rfl
+    · rename_i h; rw [if_neg h] at h0; omega
+  have hlt : x.toNat ≤ 0x10FFFF := by omega
+  have h32 : (x.setWidth 32).toInt = (x.toNat : Int) := by
+    rw [BitVec.toInt_eq_toNat_of_lt]
+    · rw [BitVec.toNat_setWidth]; congr 1; omega
+    · rw [BitVec.toNat_setWidth]; omega
+  unfold goStringOfRune
+  rw [h32, if_neg (by omega), hn]
+
+theorem convStr_refines (src : Kind) (x : BitVec 64) :
+    vmConvStr src x = intToString (val src x) := by
+  unfold vmConvStr intToString val
+  cases hs : src.signed
+  · simp only [Bool.false_eq_true, if_false, vmConvertUintStr]
+    by_cases h : x.toNat ≤ 0x10FFFF
+    · have hu : BitVec.ule x 1114111#64 = true := by
+        rw [BitVec.ule_eq_decide]; simpa using h
+      have hi : x.toInt = (x.toNat : Int) := by
+        rw [BitVec.toInt_eq_toNat_of_lt (by omega)]
+      rw [if_pos hu, if_pos (by omega), goStringOfRune_small x (by omega) (by omega), hi]
+    · have hu : BitVec.ule x 1114111#64 = false := by
+        rw [BitVec.ule_eq_decide]; simpa using h
+      have hneg : ¬(0 ≤ (x.toNat : Int) ∧ (x.toNat : Int) ≤ 0x10FFFF) := by omega
+      rw [if_neg hneg, hu]
+      rfl
+  · simp only [if_true, vmConvertIntStr]
+    by_cases h : 0 ≤ x.toInt ∧ x.toInt ≤ 0x10FFFF
+    · have hc : (BitVec.sle 0#64 x && BitVec.sle x 1114111#64) = true := by
+        rw [BitVec.sle_eq_decide, BitVec.sle_eq_decide]
+        simp [BitVec.toInt_ofNat]
+        have : ((1114111 : Int).bmod 18446744073709551616) = 1114111 := by decide
+        omega
+      rw [if_pos hc, if_pos h, goStringOfRune_small x h.1 h.2]
+    · have hc : (BitVec.sle 0#64 x && BitVec.sle x 1114111#64) = false := by
+        rw [BitVec.sle_eq_decide, BitVec.sle_eq_decide]
+        have : ((1114111 : Int).bmod 18446744073709551616) = 1114111 := by decide
+        simp [BitVec.toInt_ofNat]
+        omega
+      rw [hc, if_neg h]
+      rfl
+
 /-! ## well-formedness notions for the reference evaluator -/
 namespace C01
 open ScriggoV.Eval
